@@ -18,6 +18,8 @@
 #include <boost/property_map/property_map.hpp>
 #include <boost/tuple/detail/tuple_basic.hpp>
 
+#include <algorithm>
+
 #include <boost/mpi/environment.hpp>
 #include <boost/mpi/communicator.hpp>
 #include <boost/mpi/collectives.hpp>
@@ -90,14 +92,17 @@ namespace parmcb {
                 /*
                  * Heuristic in case number of signed edges is small compared to the number of vertices.
                  */
+                // All processes must agree on the order of the signed edges: it decides which edges each process
+                // handles and which edges are hidden for each of them. The order of std::set<Edge> depends on
+                // addresses, which are process specific, so order by forest index instead.
+                std::vector<Edge> signed_edges_as_vector(signed_edges.begin(), signed_edges.end());
+                std::sort(signed_edges_as_vector.begin(), signed_edges_as_vector.end(),
+                        [&forest_index](const Edge &a, const Edge &b) {
+                            return forest_index(a) < forest_index(b);
+                        });
                 std::map<Edge, std::set<Edge>> hidden_edges_per_edge;
-                std::vector<Edge> signed_edges_as_vector;
-                std::set<Edge> tmp_signed_edges = signed_edges;
-                while (!tmp_signed_edges.empty()) {
-                    auto bit = tmp_signed_edges.begin();
-                    hidden_edges_per_edge.insert(std::make_pair(*bit, tmp_signed_edges));
-                    signed_edges_as_vector.push_back(*bit);
-                    tmp_signed_edges.erase(bit);
+                for (auto it = signed_edges_as_vector.begin(); it != signed_edges_as_vector.end(); ++it) {
+                    hidden_edges_per_edge.insert(std::make_pair(*it, std::set<Edge>(it, signed_edges_as_vector.end())));
                 }
 
                 std::vector<Edge> local_signed_edges_as_vector;
